@@ -348,3 +348,82 @@ func hintFindings(p *core.Program, g *gadgetInfo) []string {
 	}
 	return out
 }
+
+// unrestricting lists the frontend.API methods that cannot make a witness unsatisfiable by themselves: an unused result
+// of one of these adds at most an always-satisfiable constraint.
+var unrestricting = map[string]bool{"Add": true, "Sub": true, "Neg": true, "Mul": true, "MulAcc": true, "IsZero": true,
+	"Println": true, "Compiler": true, "ConstantValue": true}
+
+// checkNoExtraConstraints decides the completeness half of an "accepted exactly when" statement structurally: in the given
+// definitions every constraint-introducing API call or gadget invocation must be part of (a subterm of) one of the terms the
+// other obligations matched exactly — the definition's result or one of the accounted asserts. Anything else is a further
+// restriction on the witness that the statement does not mention (a range check, an extra equality, a non-zero divisor).
+func checkNoExtraConstraints(p *core.Program, r *core.Report, rule string, defs []*gadgetInfo, accounted map[*gadgetInfo][]tf.Event) {
+	seenDef := map[*gadgetInfo]bool{}
+	n := 0
+	for _, g := range defs {
+		if g == nil || seenDef[g] {
+			continue
+		}
+		seenDef[g] = true
+		keys := map[string]bool{}
+		add := func(t *tf.Term) {
+			tf.Walk(t, func(x *tf.Term) bool {
+				keys[x.Key()] = true
+				return true
+			})
+		}
+		add(g.Ret)
+		acc := map[ssa.CallInstruction]bool{}
+		for _, e := range accounted[g] {
+			add(e.Term)
+			acc[e.Instr] = true
+		}
+		var extra []string
+		pos := ""
+		for _, e := range g.Events {
+			t := e.Term
+			if t == nil || (t.K != tf.KApi && t.K != tf.KGadget) {
+				continue
+			}
+			n++
+			if acc[e.Instr] || keys[t.Key()] {
+				continue
+			}
+			if t.K == tf.KApi && unrestricting[t.Name] {
+				continue
+			}
+			what := "api." + t.Name
+			if t.K == tf.KGadget {
+				what = "gadget " + t.Name
+			}
+			if pos == "" {
+				pos = p.Pos(e.Instr.Pos())
+			}
+			extra = append(extra, fmt.Sprintf("%s at %s: %s", what, p.Pos(e.Instr.Pos()), describe(t)))
+		}
+		name := g.Name + "." + g.Fn.Name() + ": no constraint beyond the statement's"
+		if len(extra) > 0 {
+			r.Violation(rule, name, pos, "constraint-introducing call(s) whose result is neither part of the definition's result nor of an accounted assert — a further restriction that rejects statements the property says are provable (or whose effect nothing here decides): %s", strings.Join(extra, "; "))
+		} else {
+			r.OK(rule, name, p.Pos(g.Fn.Pos()), "every restricting API/gadget call is a subterm of the result or of an accounted assert")
+		}
+	}
+	r.Count("constraint-introducing calls accounted", n)
+}
+
+// publicAsserts returns the AssertIsEqual events of a circuit's Define one side of which is a public-tagged field (the
+// input-hash binding, decided by C03).
+func publicAsserts(ci *gadgetInfo, T *types.Named) []tf.Event {
+	pub, _ := publicFields(T)
+	var out []tf.Event
+	for _, e := range apiEvents(ci, "AssertIsEqual") {
+		a, b, _ := assertEqSides(e.Term)
+		for _, f := range pub {
+			if isRecvField(a, f) || isRecvField(b, f) {
+				out = append(out, e)
+			}
+		}
+	}
+	return out
+}
